@@ -12,7 +12,10 @@ import (
 	"math/big"
 	"math/rand"
 	"strings"
+	"sync"
+	"sync/atomic"
 	"testing"
+	"time"
 
 	"github.com/ethereum/go-ethereum/common"
 	"github.com/ethereum/go-ethereum/core/types"
@@ -218,6 +221,15 @@ type c03In struct {
 	Raw  []byte
 	Key  []byte // kinds 3,4: the constructing node's key
 	Mode int    // kinds 3,4: fault mode of its key signer
+	// kinds 1,2: when set, the digest is observed while other goroutines hash the (different)
+	// messages of Pool at the same moment, in tight loops for Millis milliseconds; the
+	// observation is the first digest that differs from the one computed alone, if any
+	Conc *c03Conc
+}
+
+type c03Conc struct {
+	Pool   []vfBid
+	Millis int
 }
 
 type c03Obs struct {
@@ -285,9 +297,64 @@ func c03ConstructErr(err error, hashErr error) int {
 	return 7
 }
 
+// c03Concurrent hashes [in.Bid] in a tight loop while one goroutine per pool message hashes
+// that message; returns the first result that differs from [alone] (the digest computed
+// with nothing else running), else [alone]. Also returns the number of digests compared.
+func c03Concurrent(in c03In, alone vfOutcome) (vfOutcome, int) {
+	hashOf := func(kind int, b vfBid) func() ([]byte, error) {
+		if kind == 2 {
+			return func() ([]byte, error) { return GetPreConfirmationHash(&preconfpb.PreConfirmation{Bid: b.pb()}) }
+		}
+		return func() ([]byte, error) { return GetBidHash(b.pb()) }
+	}
+	same := func(a, b vfOutcome) bool { return a.Kind == b.Kind && a.Class == b.Class && string(a.Bytes) == string(b.Bytes) }
+	var stop int32
+	var wg sync.WaitGroup
+	start := make(chan struct{})
+	for i, pb := range in.Conc.Pool {
+		f := hashOf(1+(i+in.Kind)%2, pb) // both functions run next to the observed one
+		if i%2 == 0 {
+			f = hashOf(in.Kind, pb)
+		}
+		wg.Add(1)
+		go func() {
+			defer wg.Done()
+			<-start
+			for atomic.LoadInt32(&stop) == 0 {
+				c03Hash(f)
+			}
+		}()
+	}
+	res, n := alone, 0
+	f := hashOf(in.Kind, in.Bid)
+	deadline := time.Now().Add(time.Duration(in.Conc.Millis) * time.Millisecond)
+	close(start)
+	for time.Now().Before(deadline) {
+		for k := 0; k < 64; k++ {
+			got := c03Hash(f)
+			n++
+			if !same(got, alone) {
+				res = got
+				deadline = time.Now()
+				break
+			}
+		}
+	}
+	atomic.StoreInt32(&stop, 1)
+	wg.Wait()
+	return res, n
+}
+
 func c03Run(in c03In) c03Obs {
 	var o c03Obs
 	o.Answer = vfOutcome{Kind: "err", Class: 0}
+	if in.Conc != nil && (in.Kind == 1 || in.Kind == 2) {
+		seq := in
+		seq.Conc = nil
+		o = c03Run(seq)
+		o.Obs, _ = c03Concurrent(in, o.Obs)
+		return o
+	}
 	switch in.Kind {
 	case 0:
 		o.Obs = vfOutcome{Kind: "ok", Bytes: crypto.Keccak256(in.Raw)}
@@ -433,6 +500,24 @@ func TestVerifC03(t *testing.T) {
 			t.Fatalf("verif: cannot build a valid bid: %v", err)
 		}
 		run("construct-commitment", c03In{Kind: 4, Bid: vfBidOf(sb), Key: key, Mode: mode})
+	}
+	// concurrent hashing: every message of a pool of distinct messages is observed while all
+	// the others are being hashed at the same moment (shared mutable state between calls
+	// would show up as a digest that differs from the one computed alone)
+	rounds, millis, G := 1, 60*e.Slow, 12
+	if e.Tier == "thorough" {
+		rounds, millis = 4, 250
+	}
+	for rd := 0; rd < rounds; rd++ {
+		pool := make([]vfBid, G)
+		for i := range pool {
+			pool[i] = vfBid{Tx: []byte("0x" + common.Bytes2Hex(rb(32))), Amt: []byte(new(big.Int).SetUint64(r.Uint64()).String()),
+				Bn: r.Int63(), Ds: r.Int63(), De: r.Int63(), Dig: rb(32), Sig: rb(65)}
+		}
+		for i := range pool {
+			others := append(append([]vfBid{}, pool[:i]...), pool[i+1:]...)
+			run("concurrent", c03In{Kind: 2 - (i%4)/3, Bid: pool[i], Conc: &c03Conc{Pool: others, Millis: millis}})
+		}
 	}
 	for _, b := range []vfBid{{Tx: nil, Amt: []byte("1"), Bn: 1}, {Tx: []byte("t"), Amt: nil, Bn: 1}, {Tx: []byte("t"), Amt: []byte("1"), Bn: 0},
 		{Tx: []byte("t"), Amt: []byte("x"), Bn: 1}, {Tx: []byte("t"), Amt: []byte("-1"), Bn: 1}} {
